@@ -625,9 +625,8 @@ func (c *connection) SendResponseError(from gen.PID, to gen.PID, options gen.Mes
 }
 
 func (c *connection) SendTerminatePID(target gen.PID, reason error) error {
-	if target.Creation != c.peer_creation {
-		return gen.ErrProcessIncarnation
-	}
+	// target is a process of THIS node (the receiver stamps it with its peer creation):
+	// there is nothing to compare with the creation of the peer
 	buf := lib.TakeBuffer()
 	// 8 (header) + 1 priority + 8 (target process id)
 	buf.Allocate(8 + 1 + 8)
@@ -698,9 +697,7 @@ func (c *connection) SendTerminateProcessID(target gen.ProcessID, reason error) 
 }
 
 func (c *connection) SendTerminateAlias(target gen.Alias, reason error) error {
-	if target.Creation != c.peer_creation {
-		return gen.ErrProcessIncarnation
-	}
+	// target is an alias of THIS node, see SendTerminatePID
 	buf := lib.TakeBuffer()
 	// 8 (header) + 1 priority + 24 (target alias id [3]uint64)
 	buf.Allocate(8 + 1 + 24)
